@@ -668,11 +668,12 @@ def p_mp_createClass(p):
                     if not moffile:
                         raise MOFDependencyError(
                             msg=_format(
-                                "Cannot compile class {0} because its "
-                                "superclass {1!A} does not exist in the CIM "
-                                "repository and a MOF file for it was not "
-                                "found on the search path",
-                                cc_path, cc.superclass),
+                                "Cannot compile class {0} because the CIM "
+                                "repository does not have or accept its "
+                                "superclass {1!A} and a MOF file for it was "
+                                "not found on the search path. The "
+                                "CreateClass exception was {2!A}",
+                                cc_path, cc.superclass, ce),
                             parser_token=p)
                     p.parser.mofcomp.compile_file(moffile, ns)
                     fixedSuper = True
@@ -2583,8 +2584,8 @@ class MOFWBEMConnection(BaseRepositoryConnection):
                 # Since this may cause additional GetClass calls
                 # IncludeQualifiers = True insures reference properties on
                 # instances with aliases get built correctly.
-                self.GetClass(cc.superclass, namespace=ns, LocalOnly=True,
-                              IncludeQualifiers=True)
+                super_ = self.GetClass(cc.superclass, namespace=ns,
+                                       LocalOnly=True, IncludeQualifiers=True)
             except CIMError as ce:
                 if ce.status_code == CIM_ERR_NOT_FOUND:
                     raise CIMError(
@@ -2594,6 +2595,29 @@ class MOFWBEMConnection(BaseRepositoryConnection):
                                 cc_path, cc.superclass),
                         conn_id=self.conn_id)
                 raise
+
+            # Because an existing class is overwritten, make sure the class
+            # does not become its own direct or indirect superclass.
+            supernames = NocaseList([cc.classname])
+            while super_.classname not in supernames:
+                supernames.append(super_.classname)
+                if not super_.superclass:
+                    break
+                try:
+                    super_ = self.GetClass(super_.superclass, namespace=ns,
+                                           LocalOnly=True,
+                                           IncludeQualifiers=True)
+                except CIMError:
+                    break
+            else:
+                raise CIMError(
+                    CIM_ERR_INVALID_SUPERCLASS,
+                    _format("Cannot create class {0} because with "
+                            "superclass {1!A} its chain of superclasses "
+                            "would be cyclic: {2}",
+                            cc_path, cc.superclass,
+                            " -> ".join(supernames + [super_.classname])),
+                    conn_id=self.conn_id)
 
         self.compile_ordered_classnames.append(cc.classname)
 
